@@ -41,12 +41,14 @@ func ncCond(nc *v1.NodeClaim, t string) (string, int) {
 	return "Absent", -1
 }
 
-func taintStrs(ts []corev1.Taint) []string {
-	out := []string{}
+func taintStrs(ts []corev1.Taint) []trace.M {
+	out := []trace.M{}
 	for _, t := range ts {
-		out = append(out, t.Key+"="+t.Value+":"+string(t.Effect))
+		out = append(out, trace.M{"key": t.Key, "value": orDash(t.Value), "effect": string(t.Effect)})
 	}
-	sort.Strings(out)
+	sort.Slice(out, func(i, j int) bool {
+		return out[i]["key"].(string)+out[i]["effect"].(string) < out[j]["key"].(string)+out[j]["effect"].(string)
+	})
 	return out
 }
 
@@ -73,7 +75,15 @@ func milli(rl corev1.ResourceList) map[string]int {
 }
 
 // Abs is the abstraction function: API object -> the record the specification talks about.
+// Every record carries exists=true; an absent object is logged as {"exists": false} (TLC cannot
+// compare a record with a string sentinel).
 func Abs(o client.Object) trace.M {
+	m := abs(o)
+	m["exists"] = true
+	return m
+}
+
+func abs(o client.Object) trace.M {
 	switch x := o.(type) {
 	case *v1.NodeClaim:
 		m := trace.M{"kind": "NodeClaim", "name": x.Name, "uid": string(x.UID), "pool": x.Labels[v1.NodePoolLabelKey],
